@@ -361,6 +361,10 @@ class SolverSeam:
         from elexsolver.QuantileRegressionSolver import QuantileRegressionSolver as RealQR
 
         seam = self
+        try:
+            from cvxpy.utilities.warn import warn as _cvx_warn
+        except Exception:  # noqa: BLE001 - older cvxpy: warnings come from cvxpy.problems.problem
+            _cvx_warn = None
 
         class SimQuantileRegressionSolver(RealQR):
             """Real solver; every fit call and every single-quantile solve inside it is logged; the k-th SOLVE of the run can
@@ -385,17 +389,16 @@ class SolverSeam:
                         seam.calls[-1]["raised"] = seam.fault_kind
                     if seam.fault_kind == "solver_error":
                         raise cvxpy.error.SolverError("injected: solver failed")
-                    # the inaccuracy warning of cvxpy, attributed to the module that emits it in production;
-                    # the module-level filter in ConformalElectionModel must turn it into an exception
-                    warnings.warn_explicit(
-                        "Solution may be inaccurate. Try another solver, adjusting the solver settings, "
-                        "or solve with verbose=True for more information.",
-                        UserWarning,
-                        filename="cvxpy/problems/problem.py",
-                        lineno=1,
-                        module="cvxpy.problems.problem",
-                        registry={},
-                    )
+                    # the inaccuracy warning of cvxpy, emitted the way the INSTALLED cvxpy emits it: recent versions
+                    # (cvxpy.utilities.warn) attribute their warnings to the first frame outside the cvxpy package, i.e. to the
+                    # calling solver module, older ones to cvxpy.problems.problem.  The library must turn either into a retry.
+                    msg = ("Solution may be inaccurate. Try another solver, adjusting the solver settings, "
+                           "or solve with verbose=True for more information.")
+                    if seam.fault_kind == "inaccurate_warning_legacy" or _cvx_warn is None:
+                        warnings.warn_explicit(msg, UserWarning, filename="cvxpy/problems/problem.py", lineno=1,
+                                               module="cvxpy.problems.problem", registry={})
+                    else:
+                        _cvx_warn(msg)
 
             def _fit(self, *a, **k):
                 self._sim_solve_hook()
